@@ -183,6 +183,15 @@ def replay_map(fam, case, ob):
     ref_kw.update(expl)
     ref = cls(**ref_kw)
     xs = np.array([0.3, 0.9, 1.7, 2.6])
+    if fam == NORMFIT and (case["pattern"]["mu_norm"] != case["pattern"]["sigma_norm"]):
+        # the documented behaviour of this case IS the RuntimeError: the replay checks that it is raised
+        try:
+            inst.cdf(xs, **expl)
+        except RuntimeError:
+            return {"confirmed": False, "detail": "RuntimeError raised as documented when only one of mu_norm / sigma_norm is passed"}
+        except Exception as e:  # noqa
+            return {"confirmed": True, "detail": f"{fam}.cdf raised {type(e).__name__} instead of RuntimeError: {e}"}
+        return {"confirmed": True, "detail": "no RuntimeError although only one of mu_norm / sigma_norm was passed"}
     try:
         a = inst.cdf(xs, **expl)
         b = ref.cdf(xs)
